@@ -122,6 +122,18 @@ def install(E):
     S['trait:std::cmp::PartialEq::eq'] = eq
     S['trait:std::cmp::PartialEq::ne'] = ne
 
+    def ptr_eq(I, args, e, c):
+        """Rc::ptr_eq: pointer identity implies structural equality, never the converse - a structurally equal diagram may
+        have been allocated elsewhere (another environment, From, Rc::new), so both outcomes are explored when the operands are equal"""
+        a, b = args[0], args[1]
+        if not (isinstance(a, VBdd) and isinstance(b, VBdd)):
+            raise Undecidable('Rc::ptr_eq on %r' % (a,), e['loc'])
+        if not I.bdd_eq(a.term, b.term): return VBool(FALSE)
+        key = ('ptreq',) + tuple(sorted((I.W.rep(a.term), I.W.rep(b.term)), key=repr))
+        return VBool(const(I.W.decide(key, [True, False])))
+    S['std::rc::Rc::ptr_eq'] = ptr_eq
+    S['alloc::rc::Rc::ptr_eq'] = ptr_eq
+
     def mk_ord(test):
         def h(I, args, e, c):
             a, b = args
